@@ -39,9 +39,17 @@ func init() {
 			add(&thorough, "", "ZZ_C14_Head", bs, kind, 9, 1)
 			add(&thorough, "", "ZZ_C14_Head", bs, kind, 3, 3)
 		}
+		bb := "three messages ([]byte / *bytes.Buffer / [][]byte, sizes 1, w-1, w, 2w+1 around the write buffer w=4; pattern packs size and carrier per message, base 8) through the head handler of a queued channel over the REAL buffered transport wrappers, sender run manually so that packets are batched"
+		for _, v := range [][]int64{{0, 4}, {16, 4}} {
+			for _, pat := range []int64{192, 2*64, 0*1 + 3*8 + 1*64, 3*1 + 0*8 + 3*64, 4 + 3*8 + 2*64, 1 + 7*8 + 3*64 + 512, 2 + 2*8 + 3*64} {
+				add(&quick, "", "ZZ_C14_Buffered", bb, v[0], v[1], 3, pat)
+			}
+			add(&thorough, "", "ZZ_C14_Buffered", bb, v[0], v[1], 1, 3+3*8+0*64)
+			add(&thorough, "", "ZZ_C14_Buffered", bb, v[0], v[1], 2, 0+3*8+3*64+512)
+		}
 		Specs["C14"] = &Spec{
 			Jobs:      jobsBy(quick, thorough),
-			MustReach: []string{"c14-tobytes-done", "c14-tobytes-unsupported", "c14-toreader-done", "c14-toreader-unsupported", "c14-countof-done", "c14-bytereader-done", "c14-steal-done", "c14-head-done", "c14-head-unsupported"},
+			MustReach: []string{"c14-tobytes-done", "c14-tobytes-unsupported", "c14-toreader-done", "c14-toreader-unsupported", "c14-countof-done", "c14-bytereader-done", "c14-steal-done", "c14-head-done", "c14-head-unsupported", "c14-buffered-done"},
 			Bounds: map[string]string{
 				"quick":    "helpers: 10 carrier kinds x content 0..5 symbolic bytes; head handler: 9 message kinds x sizes {0,1,3,1024,1025} on the synchronous channel and size 1025 on a queued channel (queue 2)",
 				"thorough": "plus sizes 2,1023,2047,2048,2049,65536,65537 on the synchronous channel and sizes 3/2049 on queued channels",
